@@ -16,7 +16,7 @@ import (
 
 var substructuralMutations = []string{"binder-to-scope", "case-payload-to-scope", "binder-to-alias", "alias-to-live", "cut-reuse-self-as-name",
 	"binder-to-alias", "alias-to-live", "binder-to-alias", "alias-to-live", "binder-to-alias", "case-payload-to-scope", "binder-to-scope", "drop-statement", "dup-statement", "rename-binder",
-	"rename-use", "wait-to-drop", "insert-drop", "insert-split", "extra-provider", "swap-statements", "arity-minus", "drop-branch"}
+	"rename-use", "wait-to-drop", "insert-drop", "insert-split", "extra-provider", "swap-statements", "arity-minus", "drop-branch", "merge-binders", "merge-binders"}
 
 var modeMutations = []string{"param-mode", "ret-mode", "ann-mode", "prc-mode", "shift-words", "ann-mode", "ret-mode", "param-mode"}
 
